@@ -299,6 +299,15 @@ def generate(ctx):
             ((6, 4, 'equiangular', 0.25), (4, 5, 'gauss', 0.0)),                    # offset source, target beyond both ends
             ((8, 5, 'equiangular_with_poles', 0.0), (5, 3, 'equiangular', 0.5)),    # down-sampling
             ((6, 4, 'gauss', 0.6), (5, 4, 'equiangular', 0.0))]                     # nearest neighbour across the 0/2pi seam
+    # longitude offsets: negative, larger than one spacing, last node beyond 2*pi; source only / target only / both / equal grids
+    d = float(np.deg2rad(1.0))
+    cfgs += [((6, 4, 'gauss', -d), (6, 4, 'gauss', -d)),
+             ((5, 3, 'gauss', 0.0), (7, 4, 'equiangular', 1.0)),
+             ((8, 4, 'equiangular', 1.1), (5, 3, 'gauss', 0.0)),
+             ((6, 4, 'gauss', -0.5), (9, 5, 'equiangular', 0.9))]
+    if not quick:
+        cfgs += [((64, 32, 'gauss', -d), (64, 32, 'gauss', -d)), ((64, 32, 'gauss', 0.3), (64, 32, 'gauss', 0.3)),
+                 ((10, 5, 'gauss', 0.0), (10, 5, 'gauss', -0.7)), ((10, 5, 'gauss', 6.0), (12, 6, 'equiangular_with_poles', -6.0))]
     if not quick:
         cfgs += [((4, 48, 'gauss', 0.0), (7, 9, 'equiangular_with_poles', 0.1)), ((96, 3, 'gauss', 0.0), (10, 8, 'gauss', 0.0)),
                  ((7, 7, 'gauss', 0.3), (14, 15, 'equiangular', 0.0)), ((12, 6, 'equiangular', 0.0), (12, 6, 'equiangular_with_poles', 0.0))]
@@ -764,6 +773,20 @@ def r_regrid2(ctx, a):
             edge = np.where(tlat[pole] < slat[0], 0, S[1] - 1)
             want = np.stack([np.interp(tlon, slon, ff[ld][:, e]) for e in edge], axis=1)
             ctx.oracle_close('poleward of the source latitudes the nearest source row is used', out[ld][:, pole], want, scale=s)
+    for nm, off, lo in (('source', S[3], slon), ('target', T[3], tlon)):
+        ctx.count(f'regrid2:{nm} longitude offset ' + ('negative' if off < 0 else 'zero' if off == 0 else
+                                                      'beyond one spacing' if off > 2 * np.pi / len(lo) else 'positive'))
+        ctx.count(f'regrid2:{nm} nodes outside [0, 2pi)', int(np.sum((lo < 0) | (lo >= 2 * np.pi))))
+    # identity between equal grids, for the source grid and for the target grid (offsets included)
+    for nm, g, d_ in (('source', gs, S), ('target', gt, T)):
+        h = rng.integers(-64, 65, size=(d_[0], d_[1])) / 8.0
+        ctx.oracle_close(f'bilinear regridding is the identity between equal grids ({nm} grid of this case)',
+                         np.asarray(hi.BilinearRegridder(g, g)(jnp.asarray(h))), h, scale=float(np.abs(h).max() + 1) * 4)
+        same = hi.NearestRegridder(g, g)
+        ctx.table_obligation('BallTree neighbour of a grid point within the same grid is itself',
+                             bool(np.array_equal(np.asarray(same.indices), np.arange(d_[0] * d_[1]))), np.asarray(same.indices))
+        ctx.oracle(f'nearest regridding is the identity between equal grids ({nm} grid of this case)',
+                   bool(np.array_equal(np.asarray(same(jnp.asarray(h))), h)), None)
     again = np.asarray(bl(jnp.asarray(f)))
     ctx.oracle('bilinear regridder: repeated calls are bit-identical', bool(np.array_equal(out, again)), None)
     # nearest: independent brute-force great-circle neighbour
